@@ -127,6 +127,7 @@ func (w *witnesses) flush() {
 		w.e.Stat("boundary."+p, w.bounds[p])
 	}
 	w.e.Stat("linearizability_checks", linzChecked)
+	w.e.Stat("replay_extra_framework_header", extraFrameworkHeaders)
 }
 
 // ---------------------------------------------------------------------------------------------
